@@ -173,6 +173,21 @@ class C04(IRProp):
                     code = r["mod_code"][n][1]
                     for ro, e in code.text_section.symbolic_expressions.items():
                         want.append((starts[i] + patch_pos(i, n) + ro, expr_key(e)))
+        # the operands the patch text asks for (independent of what the assembler reports): offset, symbol, addend
+        import re as _re
+        for i in range(len(case.blocks)):
+            for off, n, ln, plen in mods_of[i]:
+                text = case.mods[n][4]
+                if case.mods[n][1] == "del" or not isinstance(text, str):
+                    continue
+                labels = _re.findall(r"\bL(\d+)\b", text)
+                tmpl = _re.sub(r"\bL\d+\b", "{L}", text)
+                if tmpl in irgen.PATCH_EXPRS and labels:
+                    code = r["mod_code"][n][1]
+                    got = sorted((ro, tuple(sy.name for sy in e.symbols), getattr(e, "offset", None)) for ro, e in code.text_section.symbolic_expressions.items())
+                    exp = sorted((ro, (f"L{labels[0]}",), add) for ro, add in irgen.PATCH_EXPRS[tmpl])
+                    if got != exp:
+                        bad.append(dict(what=f"patch `{text}`: expressions (offset, symbol, addend) {got}, the text asks for {exp}"))
         final = observe_final(r["built"].m) if not case.align else None     # alignment padding would shift the addresses
         if sorted(want, key=repr) != sorted(obs["symex"], key=repr):
             bad.append(dict(what=f"symbolic expressions: expected {sorted(want, key=repr)}, found {sorted(obs['symex'], key=repr)}"))
